@@ -29,6 +29,7 @@ SolveReturns(scn) == CASE scn \in {"unbounded1", "unbounded2", "unbounded3", "in
 \* invalid option values: must end in an error, never in a number
 BadOptions == {[opt |-> "return_primal_or_dual", val |-> v] : v \in {"both", "Dual", ""}}
          \cup {[opt |-> "dimension_reduction_heuristic", val |-> v] : v \in {"foo", "logdet", "logdetx", "Trace", "logdet1.5"}}
+         \cup {[opt |-> "solver", val |-> v] : v \in {"CLARABELL", "", "no-such-solver"}}
 VARIABLES scn, hist, mode
 vars == <<scn, hist, mode>>
 Init == scn \in Scenarios /\ hist = <<>> /\ mode \in {"access", "badopt"}
